@@ -53,6 +53,10 @@ fn main() {
             };
             std::process::exit(code);
         }
+        "aux" => {
+            let code = cteverif::props::c05::aux_main(&args[2..]);
+            std::process::exit(code);
+        }
         "worker" => {
             // worker <id> <tier> <seed> <shard> <nshards> <start> <skip|-> <out> <deadline>
             if args.len() < 11 {
